@@ -537,14 +537,24 @@ struct SlistTarget
             uint64_t const mask = mag(o.a[0]) | 1;
             std::vector<int> keep, seen; size_t k = 0;
             c.site("A_SLIST_FORSAFE");
-            a_slist_node *it, *at;
-            A_SLIST_FORSAFE(it, at, l)
-            {
-                int id = id_of(it); seen.push_back(id);
-                if ((mask >> (k % 16)) & 1) { a_slist_del(l, at); it->next = nullptr; attached[(size_t)id] = 0; it = A_NULL; }
-                else keep.push_back(id);
-                if (++k > len + 2) break;
+#define FORSAFE_BODY                                                                                                       \
+    {                                                                                                                      \
+        int id = id_of(it); seen.push_back(id);                                                                            \
+        if ((mask >> (k % 16)) & 1) { a_slist_del(l, at); it->next = nullptr; attached[(size_t)id] = 0; it = A_NULL; }     \
+        else keep.push_back(id);                                                                                           \
+        if (++k > len + 2) break;                                                                                          \
+    }
+            if (o.a[1] & 1)
+            { // the cursor-declaring lower-case form
+                c.st.add("probe.slist_forsafe_lower_case_with_deletion");
+                a_slist_forsafe(it, at, l) FORSAFE_BODY
             }
+            else
+            {
+                a_slist_node *it, *at;
+                A_SLIST_FORSAFE(it, at, l) FORSAFE_BODY
+            }
+#undef FORSAFE_BODY
             if (seen != M) { c.fail("iteration-wrong", "A_SLIST_FORSAFE", "forsafe with deletion did not visit the model sequence"); break; }
             M = keep;
             c.st.add("probe.slist_forsafe_with_deletion");
